@@ -5,9 +5,9 @@ from harness import ops
 
 VERSIONS = [0, 4, 7, 8, 11, 12, 13, 14, 18, 19, 20, 25, 26, 27, 28, 29, 30, 33, 34, 36, 37, 38, 39]
 RATIOS = [1.0, 1.0, 1.0, 1.5, 16.0, 0.7, 0.1, 1 / 3, 2.5, 0.5, 1.0000000000000002, 4.0, 0.9999999999999999, 3.3]
-RCS = [0, 1, 2, 0, 1, 2, 5, -1]      # VCPU, MEMORY_MB, DISK_GB, ..., unknown
+RCS = [0, 1, 2, 0, 1, 2, 5, 1000, 1001, 1003]      # VCPU, MEMORY_MB, DISK_GB, ..., custom names
 N_RP, N_NAME, N_CONS, N_AGG = 5, 6, 4, 3
-TRAITS = [0, 1, 2, 3, 500000]
+TRAITS = [0, 1, 2, 3, 100001, 100002, 100003]
 
 
 class State(object):
@@ -16,15 +16,19 @@ class State(object):
     def __init__(self, dump):
         self.rps = {r[0]: r for r in dump[0]}
         self.invs = {}
+        rcname = {row[0]: row[1] for row in dump[7]}
         for r in dump[1]:
-            self.invs.setdefault(r[0], {})[r[1]] = r
+            self.invs.setdefault(r[0], {})[rcname.get(r[1], r[1])] = r
         self.allocs = dump[2]
         self.cons = {r[0]: r for r in dump[3]}
+        self.rcid = {row[1]: row[0] for row in dump[7]}
+        self.rcname = {row[0]: row[1] for row in dump[7]}
 
     def gen_of(self, u):
         return self.rps[u][2] if u in self.rps else 0
 
     def used(self, u, rc):
+        rc = self.rcid.get(rc, rc)
         return sum(a[3] for a in self.allocs if a[1] == u and a[2] == rc)
 
 
@@ -104,7 +108,21 @@ def gen_op(rng, dump):
         g = st.gen_of(u)
         return g if rng.random() < p_ok else g + rng.choice([1, -1, 2])
 
-    if r < 0.12 or not rps:
+    if r < 0.05:
+        k = rng.random()
+        v = pick_v(rng, 0 if rng.random() < 0.1 else 7)
+        if k < 0.3:
+            return ('rc_create', v, rng.choice([1000, 1001, 1002, 0]))
+        if k < 0.45:
+            return ('rc_put', v, rng.choice([1000, 1001, 1002, 1]))
+        if k < 0.55:
+            return ('rc_rename', rng.choice([2, 4, 6, 7, 1]), rng.choice([1000, 1001, 1002, 0]), rng.choice([1000, 1001, 1002, 2]))
+        if k < 0.7:
+            return ('rc_delete', v, rng.choice([1000, 1001, 1002, 1003, 0]))
+        if k < 0.88:
+            return ('trait_put', v, rng.choice([100001, 100002, 100003, 5]))
+        return ('trait_delete', v, rng.choice([100001, 100002, 100003, 100004, 2]))
+    if r < 0.14 or not rps:
         v = pick_v(rng)
         parent = None
         if v >= 14 and rps and rng.random() < 0.5:
@@ -122,12 +140,12 @@ def gen_op(rng, dump):
         return ('rp_delete', some_rp())
     if r < 0.36:
         u = some_rp()
-        rcs = rng.sample([0, 1, 2, 5, -1], rng.randint(0, 3))
+        rcs = rng.sample([0, 1, 2, 5, 1000, 1003], rng.randint(0, 3))
         if st.invs.get(u) and rng.random() < 0.6:
             rcs = list(set(rcs) | set(st.invs[u]))
             if rng.random() < 0.3:
                 rcs = rcs[1:]
-        rcs = [rc for rc in rcs if rc != -1 or rng.random() < 0.15]
+        rcs = [rc for rc in rcs if rc < 1000 or rng.random() < 0.3]
         return ('inv_set', pick_v(rng), u, gen_for(u), [gen_inv(rng, rc) for rc in rcs])
     if r < 0.40:
         u = some_rp()
@@ -175,7 +193,7 @@ def gen_op(rng, dump):
             u = rng.choice(rps)
         if any(u == x[0] for x in ri):
             continue
-        rcs = rng.sample([0, 1, 2, 5], rng.randint(0, 3))
+        rcs = rng.sample([0, 1, 2, 5, 1000], rng.randint(0, 3))
         if st.invs.get(u) and rng.random() < 0.7:
             rcs = list(set(rcs) | set(st.invs[u]))
             if rng.random() < 0.4:
